@@ -9,14 +9,15 @@ from speclib import histories
 #  rkind: 0 value  1 exception  2 promise dropped (canceled)
 #  op   : 0 copy a handle  1 drop a handle  2 await, callback awaiter keeps its handle  3 await, callback awaiter drops its
 #         handle inside the callback  4 await from a coroutine  5 resolve
-NAMES = ['promise_pending', 'promise_inline', 'future_ready', 'future_pending', 'future_throws', 'future_coro', 'late']
-PENDING = (0, 3, 5, 6)
+#         7 default-constructed, init_if_needed(), copied; initialised through get_promise() of the copy (two handles from the start)
+NAMES = ['promise_pending', 'promise_inline', 'future_ready', 'future_pending', 'future_throws', 'future_coro', 'late', 'late_shared']
+PENDING = (0, 3, 5, 6, 7)
 MAXH, MAXA = 6, 6
 
 
 def valid(ctor, h):
     pending = ctor in PENDING
-    n = slots = 1
+    n = slots = 2 if ctor == 7 else 1
     naw = 0
     for op in h:
         if op == 5:
@@ -53,6 +54,7 @@ CONC = {
     4: [([4, 0, 2, 2, 1], [44]), ([4, 0, 2, 4, 0], [45]), ([4, 0, 0], [46])],
     5: [([5, 0, 3, 2, 5, 1], [51]), ([5, 1, 3, 4, 1, 5], [52]), ([5, 2, 2, 3, 5], [53]), ([5, 0, 1, 1], [54])],
     6: [([6, 0, 3, 2, 5, 1], [61]), ([6, 1, 3, 4, 1, 5], [62]), ([6, 2, 2, 3, 5], [63]), ([6, 0, 1, 1], [64])],
+    7: [([7, 0, 3, 2, 5, 1], [71]), ([7, 1, 3, 4, 1, 5], [72]), ([7, 2, 2, 3, 5], [73]), ([7, 0, 1, 1], [74])],
 }
 
 
@@ -60,7 +62,7 @@ def plan(tier):
     V = {}
     if tier == 'quick':
         V[0] = vecs(0, 0, 3) + vecs(0, 1, 2, 2, True) + vecs(0, 2, 2, 2, True)
-        for k in (3, 5, 6):
+        for k in (3, 5, 6, 7):
             V[k] = vecs(k, 0, 2) + vecs(k, 1, 1) + vecs(k, 2, 1)
         for k in (1, 2):
             V[k] = vecs(k, 0, 2, 2, True) + vecs(k, 1, 1) + vecs(k, 2, 1)
@@ -78,7 +80,7 @@ def plan(tier):
         maxlen = 2
     else:
         V[0] = vecs(0, 0, 4) + vecs(0, 1, 4) + vecs(0, 2, 3)
-        for k in (3, 5, 6):
+        for k in (3, 5, 6, 7):
             V[k] = vecs(k, 0, 4) + vecs(k, 1, 3) + vecs(k, 2, 3)
         for k in (1, 2):
             V[k] = vecs(k, 0, 3) + vecs(k, 1, 3) + vecs(k, 2, 3)
@@ -87,13 +89,14 @@ def plan(tier):
               3: 'value: length <= 4; exception / dropped promise: length <= 3', 1: 'value / exception / no-value: length <= 3',
               4: 'length <= 3'}
         maxlen = 4
-    sp[5] = sp[6] = sp[3]; sp[2] = sp[1]
+    sp[5] = sp[6] = sp[7] = sp[3]; sp[2] = sp[1]
     how = ['shared_future(fn(promise)) with the promise kept: pending', 'shared_future(fn(promise)) resolved inside fn',
            'shared_future(fn returning an already resolved future)', 'shared_future(fn returning a pending future)',
            'shared_future(fn that throws): result_of stores the exception', 'shared_future(fn returning a future produced by a coroutine)',
-           'default-constructed shared_future, initialised later by get_promise() (init_if_needed() called once more afterwards)']
+           'default-constructed shared_future, initialised later by get_promise() (init_if_needed() called once more afterwards)',
+           'default-constructed shared_future, init_if_needed(), copied, then initialised by get_promise() of the copy (both handles share the state)']
     units = []
-    for k in range(7):
+    for k in range(8):
         conc = CONC[k]
         units.append(dict(
             engine='e1', name='h_sf_' + NAMES[k], tu='C17.cpp', entry='h_sf', defines=['VF_CTOR=%d' % k], unwind=32, vectors=V[k], concrete=conc,
